@@ -682,6 +682,71 @@ func c09GenB64(r *vf.Rand) c09Case {
 	return c09GenB64Case(r, m, member, lenVar, vf.Pick(r, c09Spellings))
 }
 
+// joint lengths: TWO octet-string members of one key change together.
+//   split<δ>   the concatenation m1 ‖ m2 is kept and its boundary moved by δ ∈ {−2,−1,+1,+2} octets
+//   <a><b>     independent length changes a, b ∈ {-,+}: last octet cut / one random octet appended
+// on valid material and on material whose pair relation is broken (one bit of m1 flipped first).
+var c09JointVariants = []string{"split-2", "split-1", "split+1", "split+2", "-+", "+-", "--", "++"}
+
+var c09JointPairs = map[string][][2]string{
+	"okp": {{"d", "x"}, {"x", "d"}},
+	"ec":  {{"x", "y"}, {"y", "d"}, {"d", "x"}, {"y", "x"}},
+	"rsa": {{"n", "e"}, {"d", "p"}, {"p", "q"}, {"q", "dp"}, {"dp", "dq"}, {"dq", "qi"}, {"e", "d"}},
+}
+
+func c09GenJointCase(r *vf.Rand, m c08Mat, m1, m2, variant string, broken bool) c09Case {
+	j := m.rfcMembers()
+	s1, _ := j[m1].(string)
+	s2, _ := j[m2].(string)
+	b1, _ := c09B64Decode(s1)
+	b2, _ := c09B64Decode(s2)
+	b1, b2 = append([]byte{}, b1...), append([]byte{}, b2...)
+	if broken {
+		b1 = c09flip(b1, r)
+	}
+	if strings.HasPrefix(variant, "split") {
+		delta := map[string]int{"split-2": -2, "split-1": -1, "split+1": 1, "split+2": 2}[variant]
+		cat := append(append([]byte{}, b1...), b2...)
+		at := len(b1) + delta
+		if at < 0 {
+			at = 0
+		}
+		if at > len(cat) {
+			at = len(cat)
+		}
+		b1, b2 = cat[:at], cat[at:]
+	} else {
+		change := func(b []byte, c byte) []byte {
+			if c == '-' {
+				if len(b) > 0 {
+					return b[:len(b)-1]
+				}
+				return b
+			}
+			return append(b, r.Bytes(1)...)
+		}
+		b1, b2 = change(b1, variant[0]), change(b2, variant[1])
+	}
+	j[m1], j[m2] = c08b64.EncodeToString(b1), c08b64.EncodeToString(b2)
+	mut := "joint:" + m1 + "+" + m2 + ":" + variant
+	if broken {
+		mut += ":broken"
+	} else {
+		mut += ":valid"
+	}
+	return c09Case{Surface: "jwk", Mat: m, Mut: mut, JWK: j}
+}
+
+func c09GenJoint(r *vf.Rand) c09Case {
+	kind := vf.Pick(r, []string{"okp", "okp", "okp", "ec", "rsa"})
+	m := c09B64Mat(r, kind)
+	if kind == "okp" {
+		m = c08GenOKP(r, vf.Pick(r, c08OKPs), true)
+	}
+	pr := vf.Pick(r, c09JointPairs[kind])
+	return c09GenJointCase(r, m, pr[0], pr[1], vf.Pick(r, c09JointVariants), r.Intn(3) == 0)
+}
+
 // ---------------------------------------------------------------------------------------------
 // JWK mutations
 
@@ -1089,7 +1154,7 @@ func execC09(c *vf.Ctx, d *vf.Driver, cs c09Case) {
 		mw, merr := d.Call("c08.parse", []vf.Wire{vf.FromJSON(obj)}, StdOracle)
 		mOut, mKey := c08ModelOut(mw, merr)
 		c.Case(string(kb), goOut.Tag != "err" || (goOut.Cls != "missing" && goOut.Cls != "type"))
-		if strings.HasPrefix(cs.Mut, "b64:") {
+		if strings.HasPrefix(cs.Mut, "b64:") || strings.HasPrefix(cs.Mut, "joint:") {
 			// law: the decoding oracle = the hand-written decoder (text with CR/LF removed, raw URL alphabet, no padding)
 			for _, name := range c09B64Members[cs.Mat.Kind] {
 				if str, ok := cs.JWK[name].(string); ok {
@@ -1104,7 +1169,11 @@ func execC09(c *vf.Ctx, d *vf.Driver, cs c09Case) {
 			}
 			wantOK, why, vals := c09IndependentJWK(cs.JWK)
 			parts := strings.Split(cs.Mut, ":")
-			c.Count(fmt.Sprintf("b64:%s:%s:accepted=%v", parts[2], strings.Split(parts[3], "@")[0], goOut.Tag == "ok"))
+			if parts[0] == "joint" {
+				c.Count(fmt.Sprintf("joint:%s:%s:%s:accepted=%v", cs.Mat.Kind, parts[2], parts[3], goOut.Tag == "ok"))
+			} else {
+				c.Count(fmt.Sprintf("b64:%s:%s:accepted=%v", parts[2], strings.Split(parts[3], "@")[0], goOut.Tag == "ok"))
+			}
 			if wantOK && goOut.Tag != "ok" {
 				c08Fail(c, "property", "c09-b64-valid-rejected:"+cs.Mat.Kind, "a JWK whose members are valid under goat's base64 tolerance is rejected ("+cs.Mut+")", cs, goOut.String(), "ok")
 			} else if !wantOK && goOut.Tag == "ok" {
@@ -1706,6 +1775,9 @@ func genC09(r *vf.Rand, i int) c09Case {
 	case 15, 16:
 		return c09GenGo(r)
 	case 17:
+		if r.Bool() {
+			return c09GenJoint(r)
+		}
 		return c09GenB64(r)
 	}
 	return c09GenPEM(r, int64(i)*100+5)
@@ -1764,6 +1836,16 @@ func runC09(c *vf.Ctx) {
 			for _, lv := range lens {
 				for _, sp := range c09Spellings {
 					sys = append(sys, c09GenB64Case(sr, m, member, lv, sp))
+				}
+			}
+		}
+	}
+	// joint lengths: every adjacent member pair of every key type (all OKP curves) x every variant x valid / broken pair
+	for _, m := range b64mats {
+		for _, pr := range c09JointPairs[m.Kind] {
+			for _, v := range c09JointVariants {
+				for _, broken := range []bool{false, true} {
+					sys = append(sys, c09GenJointCase(sr, m, pr[0], pr[1], v, broken))
 				}
 			}
 		}
